@@ -271,6 +271,27 @@ def clause14_torn_down_means_zero(ctx, P):
         raise AnalysisBroken("first-run error paths of the buffered socket: %d" % n)
 
 
+def clause15_first_read_is_checked(ctx, P, cg):
+    """the first read_exactly()/read_until() of a connection registers it with the event loop and reports -1 when that fails (nothing
+    has been torn down then, clause 14): whoever arms the first read of a new connection looks at the result - the HTTP side does
+    (init_http_connection2 returns it), and so must the raw jet side.  A connection that was not registered is never read and never
+    noticed to end: its peer, memory and descriptor stay for good"""
+    keys = {("struct.buffered_reader", P.field_index("struct.buffered_reader", "read_exactly")),
+            ("struct.buffered_reader", P.field_index("struct.buffered_reader", "read_until"))}
+    n = 0
+    for key in ("socket_peer.c:init_socket_peer", "http_connection.c:init_http_connection2"):
+        f = P.fn(key)
+        for i in f.all_insts():
+            if i.op == "call" and not i.callee and cg.icall_field(f, i) in keys:
+                n += 1
+                used = bool(f.users(i.id))
+                ctx.ob("C07.4 R-RET", f, Q.ordinal_site(f, i, P) + ":first-read-result-is-used", used,
+                       "%s() ignores the result of the read that registers the new connection with the event loop (%s): when the "
+                       "registration fails the connection stays behind - counted, linked, its descriptor open and never polled" % (f.srcname, i.loc))
+    if n < 2:
+        raise AnalysisBroken("first reads of new connections found: %d" % n)
+
+
 def clause12_registered_for_shutdown(ctx, P, cg):
     """'a termination signal closes every connection, releases everything': the shutdown sequence (run_jet after the loop returned)
     can only release what some list knows.  Every handler of an accepted descriptor (the functions handed to accept_common())
@@ -767,3 +788,4 @@ def run(ctx):
         clause12_registered_for_shutdown(ctx, P, cg)
         clause13_freed_field_is_reassigned(ctx, P)
         clause14_torn_down_means_zero(ctx, P)
+        clause15_first_read_is_checked(ctx, P, cg)
